@@ -323,8 +323,15 @@ class Driver:
                     eid = "k%d" % self.idc
             sysid = None
             if with_sys:
-                self.idc += 1
-                sysid = "sys%d" % self.idc
+                live_sys = sorted(s_ for s_, x in m.registry.items() if x.alive)
+                if live_sys and self.rng.random() < 0.3:
+                    # a systemId that is already taken: the newer actor takes the name over, the
+                    # older one stays alive (and must not take the name with it when it stops)
+                    sysid = self.rng.choice(live_sys)
+                    self.res.count("spawns.systemId-taken-over")
+                else:
+                    self.idc += 1
+                    sysid = "sys%d" % self.idc
             payload = {"id": eid, "systemId": sysid, "input": {"n": self.idc}}
 
             def upd(a=a, eid=eid, sysid=sysid):
